@@ -8,71 +8,187 @@ open Scc
 
 variable {q : Core.Prog} {p : Fun.CheckedProgram}
 
-theorem f2c_isCodata_nil (ty : Core.Ty) : Fun2Core.isCodata ty [] = false := by
-  cases ty <;> simp [Fun2Core.isCodata]
+theorem f2c_isCodata_eq (ty : Core.Ty) (cts : List Core.TypeDecl) :
+    Fun2Core.isCodata ty cts = Core.isCodata cts ty := by
+  cases ty <;> rfl
 
-theorem step_let (p : Fun.CheckedProgram) (hp : p.codataTypes = []) (x vt bound body lty env k) :
+theorem step_let_nc (p : Fun.CheckedProgram) (x vt bound body lty env k)
+    (h : Fun.isCodataTy p vt = false) :
     Fun.step p (.eval (.letIn x vt bound body lty) env k) =
       .next (.eval bound env (.letF x body env :: k)) none := by
-  simp [step_eval, Fun.evalStep, isCodataTy_nil hp]
+  simp [step_eval, Fun.evalStep, h]
+
+theorem step_let_cd (p : Fun.CheckedProgram) (x vt bound body lty env k)
+    (h : Fun.isCodataTy p vt = true) :
+    Fun.step p (.eval (.letIn x vt bound body lty) env k) =
+      (match Fun.suspend bound env with
+        | .ok v => .next (.eval body ((x, v) :: env) k) none
+        | .error w => .stuck w) := by
+  simp only [step_eval, Fun.evalStep, h, if_true]
+  cases Fun.suspend bound env <;> rfl
 
 /-- `let x = bound; body` -/
 theorem eval_let (X : Ctx p q) {x : String} {vt : Fun.Ty} {bound body : Fun.Term}
     {lty : Option Fun.Ty} {env : Fun.Env} {k : Fun.Stack} {c : Core.Term} {s : Core.Stmt}
-    {ρ0 ρ : CEnv} {out : Out} {n : Nat} (hg : good (.letIn x vt bound body lty) = true)
+    {ρ0 ρ : CEnv} {out : Out} {n : Nat} (hg : good p (.letIn x vt bound body lty) = true)
     (hc : Compiled q n (.letIn x vt bound body lty) c s)
-    (he : EnvRel GP q n (fv (.letIn x vt bound body lty)) env ρ0) (hr : CRel GP q n k c ρ0)
+    (he : EnvRel (GP p) q n (fv (.letIn x vt bound body lty)) env ρ0) (hr : CRel (GP p) q n k c ρ0)
     (hbd : BoundOn (tfvStmt s []) ρ0) (hag : AgreeOn (tfvStmt s []) ρ0 ρ) :
-    Chunk p q (R q) true (.eval (.letIn x vt bound body lty) env k) ⟨s, ρ, out, n⟩ := by
+    Chunk p q (R p q) true (.eval (.letIn x vt bound body lty) env k) ⟨s, ρ, out, n⟩ := by
   simp only [good, Bool.and_eq_true] at hg
-  obtain ⟨hgb, hgi⟩ := hg
+  obtain ⟨⟨hnct, hgi⟩, hgb⟩ := hg
   obtain ⟨st, st', hcwc, hst, htn, hcn⟩ := hc
   rw [cwc_letIn] at hcwc
-  have f1 : FSteps p (.eval (.letIn x vt bound body lty) env k)
-      (.eval bound env (.letF x body env :: k)) [] 1 := .one (step_let p X.hp ..)
-  refine Chunk.prefix f1 (.refl _) rfl (fun _ => Nat.le_refl _) ?_
-  refine guard_sim X (fv (.letIn x vt bound body lty)) hcwc
-    (fun y hy => htn.bd y (by simp only [List.mem_singleton] at hy; subst hy; simp [binderNames]))
-    htn.fv hcn he hr hbd hag ?_
-  intro c' st1 s' ρ0' ρ' hcore hfs hcn' hyg he' hr' hbd' hag'
-  unfold letCore at hcore
-  cases hcb : compileWithCont body c' st1 with
-  | error e => simp [hcb] at hcore
-  | ok rb =>
-    obtain ⟨inStmt, st2⟩ := rb
-    simp only [hcb] at hcore
-    have f2' : FS st2 st' := by
-      by_cases hcd : Fun2Core.isCodata (compileTy vt) st2.codataTypes = true
-      · rw [if_pos hcd] at hcore
+  have hxu : ∀ y ∈ [x], y ∈ st.usedVars := fun y hy =>
+    htn.bd y (by simp only [List.mem_singleton] at hy; subst hy; simp [binderNames])
+  -- common part of the two cases: the translation of the body
+  have hbody : ∀ c' st1 s' , letCore x vt bound body c' st1 = .ok (s', st') → FS st st1 →
+      ConsNames c' st1 n →
+      ∃ inStmt st2, compileWithCont body c' st1 = .ok (inStmt, st2) ∧ FS st2 st' ∧
+        Compiled q n body c' inStmt ∧ TermNames bound st2 ∧ StOK q st2 ∧
+        (if Fun.isCodataTy p vt = true then
+          ∃ P, compile bound (compileTy vt) st2 = .ok (P, st') ∧
+            s' = .cut (compileTy vt) P (.mu .cns ⟨x, 0⟩ (compileTy vt) inStmt)
+        else compileWithCont bound (.mu .cns ⟨x, 0⟩ (compileTy vt) inStmt) st2 = .ok (s', st')) ∧
+        ConsNames (.mu .cns ⟨x, 0⟩ (compileTy vt) inStmt) st2 n := by
+    intro c' st1 s' hcore hfs hcn'
+    unfold letCore at hcore
+    cases hcb : compileWithCont body c' st1 with
+    | error e => simp [hcb] at hcore
+    | ok rb =>
+      obtain ⟨inStmt, st2⟩ := rb
+      simp only [hcb] at hcore
+      have f2' : FS st2 st' := by
+        by_cases hcd : Fun2Core.isCodata (compileTy vt) st2.codataTypes = true
+        · rw [if_pos hcd] at hcore
+          cases hcc : compile bound (compileTy vt) st2 with
+          | error e => simp [hcc] at hcore
+          | ok r =>
+            obtain ⟨P, st3⟩ := r
+            simp only [hcc, Except.ok.injEq, Prod.mk.injEq] at hcore
+            obtain ⟨_, rfl⟩ := hcore
+            exact fs_compile hcc
+        · rw [if_neg hcd] at hcore
+          exact fs_cwc hcore
+      have hcod2 : Fun2Core.isCodata (compileTy vt) st2.codataTypes = Fun.isCodataTy p vt := by
+        rw [f2c_isCodata_eq, ← f2'.1.codata, hst.2, X.cod vt]
+      rw [hcod2] at hcore
+      have f12 := fs_cwc hcb
+      have hst2 := hst.of_fresh f2'.1
+      have f02 : FS st st2 := fs_stepRel.trans hfs f12
+      have tnbody : TermNames body st1 :=
+        ⟨fun y hy => by
+            by_cases hyx : y = x
+            · exact hfs.sub y (htn.bd y (by simp [binderNames, hyx]))
+            · exact hfs.sub y (htn.fv y (by simp [fv, hy, hyx])),
+          fun y hy => hfs.sub y (htn.bd y (by simp [binderNames, hy])), hfs.2 htn.nosig⟩
+      have tnbound : TermNames bound st2 := htn.of_sub (fun y hy => by simp [fv, hy])
+        (fun y hy => by simp [binderNames, hy]) f02
+      refine ⟨inStmt, st2, rfl, f2', ⟨st1, st2, hcb, hst2, tnbody, hcn'⟩, tnbound, hst2, ?_,
+        consNames_mu hcb tnbody hcn' _ _⟩
+      by_cases hcd : Fun.isCodataTy p vt = true
+      · rw [if_pos hcd] at hcore ⊢
         cases hcc : compile bound (compileTy vt) st2 with
         | error e => simp [hcc] at hcore
         | ok r =>
           obtain ⟨P, st3⟩ := r
           simp only [hcc, Except.ok.injEq, Prod.mk.injEq] at hcore
-          obtain ⟨_, rfl⟩ := hcore
-          exact fs_compile hcc
-      · rw [if_neg hcd] at hcore
-        exact fs_cwc hcore
-    have hcod : st2.codataTypes = [] := by
-      rw [← f2'.1.codata, hst.2, X.hq]
-    rw [hcod, f2c_isCodata_nil] at hcore
-    simp only [Bool.false_eq_true, if_false] at hcore
-    have f12 := fs_cwc hcb
-    have hst2 := hst.of_fresh f2'.1
-    have f02 : FS st st2 := fs_stepRel.trans hfs f12
-    have tnbody : TermNames body st1 :=
-      ⟨fun y hy => by
-          by_cases hyx : y = x
-          · exact hfs.sub y (htn.bd y (by simp [binderNames, hyx]))
-          · exact hfs.sub y (htn.fv y (by simp [fv, hy, hyx])),
-        fun y hy => hfs.sub y (htn.bd y (by simp [binderNames, hy])), hfs.2 htn.nosig⟩
-    have tnbound : TermNames bound st2 := htn.of_sub (fun y hy => by simp [fv, hy])
-      (fun y hy => by simp [binderNames, hy]) f02
-    have hcbody : Compiled q n body c' inStmt := ⟨st1, st2, hcb, hst2, tnbody, hcn'⟩
+          obtain ⟨rfl, rfl⟩ := hcore
+          exact ⟨P, rfl, rfl⟩
+      · rw [if_neg hcd] at hcore ⊢
+        exact hcore
+  by_cases hcd : Fun.isCodataTy p vt = true
+  · -- by name: the bound term is a variable or a `new`
+    rw [if_pos hcd] at hgb
+    simp only [Bool.and_eq_true] at hgb
+    obtain ⟨hgpb, hpsb⟩ := hgb
+    refine guard_sim X (fv (.letIn x vt bound body lty)) hcwc hnct hxu htn.fv hcn he hr hbd hag ?_
+    intro c' st1 s' ρ0' ρ' hcore hfs hcn' hyg he' hr' hbd' hag'
+    obtain ⟨inStmt, st2, hcb, f2', hcbody, tnbound, hst2, hshape, hcnmu⟩ := hbody c' st1 s' hcore hfs hcn'
+    rw [if_pos hcd] at hshape
+    obtain ⟨P, hcP, rfl⟩ := hshape
+    have hstep := step_let_cd p x vt bound body lty env k hcd
+    have hebound : EnvRel (GP p) q n (fv bound) env ρ0' := he'.sub fun y hy => by simp [fv, hy]
+    have hbdP : BoundOn (tfvTerm P []) ρ0' := hbd'.mono fun y hy => mem_tfv_cut.2 (.inl hy)
+    have hagP : AgreeOn (tfvTerm P []) ρ0' ρ' := hag'.mono fun y hy => mem_tfv_cut.2 (.inl hy)
+    cases hpv : pureVal p bound env with
+    | none =>
+      have hs' : exceptToOption (Fun.suspend bound env) = none := by
+        rw [suspend_pure (p := p) bound env hpsb]; exact hpv
+      cases hsu : Fun.suspend bound env with
+      | ok v => simp [hsu, exceptToOption] at hs'
+      | error w =>
+        rw [hsu] at hstep
+        exact .inl ⟨0, _, .stuck w, .refl _, by rw [hstep]; rfl,
+          fun hf => absurd hf (bad_not_finished (suspend_error_bad bound env w hsu))⟩
+    | some v =>
+      have hs' : exceptToOption (Fun.suspend bound env) = some v := by
+        rw [suspend_pure (p := p) bound env hpsb]; exact hpv
+      have hsu : Fun.suspend bound env = .ok v := by
+        cases hsu : Fun.suspend bound env with
+        | ok v' => simp only [hsu, exceptToOption, Option.some.injEq] at hs'; rw [hs']
+        | error w => simp [hsu, exceptToOption] at hs'
+      rw [hsu] at hstep
+      have hPV := core_pure (p := p) (goodClauses p) (goodClauses_find p) bound
+        (goodP_pureFO p bound hgpb) env v _ st2 P st' n ρ0' ρ' n hcP hst tnbound hpv hebound hbdP hagP
+      -- the Core machine evaluates the producer and binds `x`
+      have hreach : ∃ i ρ2 n2 V, CSteps q
+          ⟨.cut (compileTy vt) P (.mu .cns ⟨x, 0⟩ (compileTy vt) inStmt), ρ', out, n⟩
+          ⟨inStmt, (⟨x, 0⟩, V) :: ρ2, out, n2⟩ i ∧ n ≤ n2 ∧ SigExt n ρ' ρ2 ∧ VRel (GP p) q n v V := by
+        cases hPv : P.isVar with
+        | true =>
+          cases P with
+          | var pc z ty =>
+            obtain ⟨_, _, V, hl, hvr⟩ := hPV.var pc z ty rfl
+            have hs := step_cut_bind (q := q) (cty := compileTy vt) (ty := compileTy vt) (x := ⟨x, 0⟩)
+              (s := inStmt) (A := .var pc z ty) (ρ := ρ') (out := out) (n := n) rfl
+              (by simpa [Core.prdVal] using hl)
+            exact ⟨1, ρ', n, V, .one hs, Nat.le_refl _, .refl _ _, hvr⟩
+          | _ => simp [Core.Term.isVar] at hPv
+        | false =>
+          obtain ⟨i, ρ2, n2, P', V, hcs, hn2, hext, hfoc, hval, hvr⟩ :=
+            (hPV.nonvar hPv).1 (.mu .cns ⟨x, 0⟩ (compileTy vt) inStmt) (compileTy vt) out trivial
+          have hs := step_cut_bind (q := q) (cty := compileTy vt) (ty := compileTy vt) (x := ⟨x, 0⟩)
+            (s := inStmt) (A := P') (ρ := ρ2) (out := out) (n := n2) hfoc hval
+          exact ⟨i + 1, ρ2, n2, V, hcs.trans (.one hs), hn2, hext, hvr⟩
+      obtain ⟨i, ρ2, n2, V, hcs, hn2, hext, hvr⟩ := hreach
+      obtain ⟨ρ02, hext0, hag2⟩ := hext.agree (ρ0 := ρ0')
+      obtain ⟨stb, stb', h1, h2, h3, h4⟩ := hcbody
+      refine .inr ⟨0, _, .eval body ((x, v) :: env) k, [], i, _, .refl _, .inr ⟨none, hstep, rfl⟩,
+        (fun _ => .inr (.inl (by intro h; cases h))), hcs, by simp, ?_⟩
+      refine SRel.eval (ρ0 := (⟨x, 0⟩, V) :: ρ02) (c := c') hgi ⟨stb, stb', h1, h2, h3, h4.mono hn2⟩ ?_ ?_ ?_ ?_
+      · refine EnvRel.bind ?_ (hvr.mono hn2)
+        refine ((he'.sub fun y hy => ?_).mono hn2).sigExt hext0 fun y hy =>
+          htn.fv_ne_sig y (by
+            obtain ⟨h1', h2'⟩ := List.mem_filter.1 hy
+            simp only [fv, List.mem_append]
+            exact .inr (List.mem_filter.2 ⟨h1', h2'⟩))
+        obtain ⟨h1', h2'⟩ := List.mem_filter.1 hy
+        simp only [fv, List.mem_append]
+        exact .inr (List.mem_filter.2 ⟨h1', h2'⟩)
+      · refine (((hr'.mono hn2).sigExt hext0 (h4.sig_lt (Nat.le_refl n)))).agree
+          (AgreeOn.cons_right (.refl _ _) fun b hb e => hyg b hb (by rw [e]; simp))
+      · refine BoundOn.cons ((hbd'.sigExt hext0).mono fun y hy => ?_)
+        obtain ⟨h1', h2'⟩ := List.mem_filter.1 hy
+        exact mem_tfv_cut.2 (.inr (mem_tfv_mu_of h1' (by simpa using h2')))
+      · refine AgreeOn.cons ((hag2 _ hag').mono fun y hy => ?_)
+        obtain ⟨h1', h2'⟩ := List.mem_filter.1 hy
+        exact mem_tfv_cut.2 (.inr (mem_tfv_mu_of h1' (by simpa using h2')))
+  · -- by value
+    rw [if_neg hcd] at hgb
+    have hcd' : Fun.isCodataTy p vt = false := by simpa using hcd
+    have f1 : FSteps p (.eval (.letIn x vt bound body lty) env k)
+        (.eval bound env (.letF x body env :: k)) [] 1 := .one (step_let_nc p x vt bound body lty env k hcd')
+    refine Chunk.prefix f1 (.refl _) rfl (fun _ => Nat.le_refl _) ?_
+    refine guard_sim X (fv (.letIn x vt bound body lty)) hcwc hnct hxu htn.fv hcn he hr hbd hag ?_
+    intro c' st1 s' ρ0' ρ' hcore hfs hcn' hyg he' hr' hbd' hag'
+    obtain ⟨inStmt, st2, hcb, f2', hcbody, tnbound, hst2, hshape, hcnmu⟩ := hbody c' st1 s' hcore hfs hcn'
+    rw [if_neg hcd] at hshape
+    have hncv : Core.isCodata q.codataTypes (compileTy vt) = false := by rw [X.cod vt]; exact hcd'
     -- pad the ideal environment so that the free variables of the continuation are bound
     obtain ⟨ρp, hep, hrp, hbdp, hagp, hbdK⟩ :=
       ideal_pad (tfvTerm (.mu .cns ⟨x, 0⟩ (compileTy vt) inStmt) []) he' hr' hbd' hag'
-    have hK : KRel GP q n (.letF x body env :: k) (.mutilde ρp ⟨x, 0⟩ inStmt) := by
+    have hK : KRel (GP p) q n (.letF x body env :: k) (.mutilde ρp ⟨x, 0⟩ inStmt) := by
       refine KRel.letF (ρ0 := ρp) hgi hcbody (hep.sub fun y hy => ?_) hrp ?_ ?_ (.refl _ _)
       · obtain ⟨h1, h2⟩ := List.mem_filter.1 hy
         simp only [fv, List.mem_append]
@@ -84,24 +200,26 @@ theorem eval_let (X : Ctx p q) {x : String} {vt : Fun.Ty} {bound body : Fun.Term
         exact hbdK b (mem_tfv_mu_of h1 (by simpa using h2))
     refine .inr ⟨0, _, _, [], 0, _, .refl _, .inl ⟨rfl, rfl⟩, (fun h => by cases h), .refl _, by simp, ?_⟩
     exact SRel.eval (ρ0 := ρp) hgb
-      ⟨st2, st', hcore, hst, tnbound, consNames_mu hcb tnbody hcn' _ _⟩
+      ⟨st2, st', hshape, hst, tnbound, hcnmu⟩
       (hep.sub fun y hy => by simp [fv, hy])
-      (.mk (cv := .mutilde ρp ⟨x, 0⟩ inStmt) rfl hK trivial hbdK) hbdp hagp
+      (.mk (cv := .mutilde ρp ⟨x, 0⟩ inStmt) rfl hK trivial hbdK hncv) hbdp hagp
 
 /-- `label a { t }` -/
 theorem eval_label (X : Ctx p q) {a : String} {t : Fun.Term}
     {lty : Option Fun.Ty} {env : Fun.Env} {k : Fun.Stack} {c : Core.Term} {s : Core.Stmt}
-    {ρ0 ρ : CEnv} {out : Out} {n : Nat} (hg : good (.label a t lty) = true)
+    {ρ0 ρ : CEnv} {out : Out} {n : Nat} (hg : good p (.label a t lty) = true)
     (hc : Compiled q n (.label a t lty) c s)
-    (he : EnvRel GP q n (fv (.label a t lty)) env ρ0) (hr : CRel GP q n k c ρ0)
+    (he : EnvRel (GP p) q n (fv (.label a t lty)) env ρ0) (hr : CRel (GP p) q n k c ρ0)
     (hbd : BoundOn (tfvStmt s []) ρ0) (hag : AgreeOn (tfvStmt s []) ρ0 ρ) :
-    Chunk p q (R q) true (.eval (.label a t lty) env k) ⟨s, ρ, out, n⟩ := by
-  simp only [good] at hg
+    Chunk p q (R p q) true (.eval (.label a t lty) env k) ⟨s, ρ, out, n⟩ := by
+  simp only [good, Bool.and_eq_true] at hg
+  obtain ⟨hg, hncd⟩ := hg
   obtain ⟨st, st', hcwc, hst, htn, hcn⟩ := hc
   rw [cwc_label] at hcwc
-  cases lty with
-  | none => simp at hcwc
-  | some τ =>
+  obtain ⟨τ, rfl, hnc⟩ := X.cod.ncd hncd
+  have htriv : True := trivial
+  cases htriv with
+  | intro =>
     simp only [c_label] at hcwc
     cases hx : compileWithCont t (.var .cns ⟨a, 0⟩ (compileTy τ)) st with
     | error e => simp [hx] at hcwc
@@ -112,8 +230,8 @@ theorem eval_label (X : Ctx p q) {a : String} {t : Fun.Term}
       have hagc : AgreeOn (tfvTerm c []) ρ0 ρ := hag.mono fun y hy => mem_tfv_cut.2 (.inr hy)
       have hrρ := hr.agree hagc
       cases hrρ with
-      | @mk _ _ _ cv hcv hk hi hb' =>
-        have hs := step_cut_mu (q := q) X.hq (cty := compileTy τ) (ty := compileTy τ)
+      | @mk _ _ _ cv hcv hk hi hb' _ =>
+        have hs := step_cut_mu (q := q) (cty := compileTy τ) (ty := compileTy τ) hnc
           (a := ⟨a, 0⟩) (s := s1) (ρ := ρ) (out := out) (n := n) hi hcv .prd
         have ha_used : a ∈ st.usedVars := htn.bd a (by simp [binderNames])
         have ha_sig : a ≠ sig := fun e => htn.nosig (e ▸ ha_used)
@@ -133,7 +251,7 @@ theorem eval_label (X : Ctx p q) {a : String} {t : Fun.Term}
             exact .inr ⟨ha_sig, ha_used⟩
         · exact EnvRel.bind (by simpa [fv] using he) (.cont hk)
         · exact .mk (by simp [Core.cnsVal, lookup_cons]) hk trivial
-            (fun b hb => by rw [mem_tfv_var] at hb; subst hb; exact ⟨_, lookup_cons_self _ _ _⟩)
+            (fun b hb => by rw [mem_tfv_var] at hb; subst hb; exact ⟨_, lookup_cons_self _ _ _⟩) hnc
         · exact BoundOn.cons (hbd.mono fun y hy => by
             obtain ⟨h1, h2⟩ := List.mem_filter.1 hy
             exact mem_tfv_cut.2 (.inl (mem_tfv_mu_of h1 (by simpa using h2))))
@@ -151,17 +269,20 @@ theorem step_goto (p : Fun.CheckedProgram) (a u ty env k) :
 /-- `goto a (u)` -/
 theorem eval_goto (X : Ctx p q) {a : String} {u : Fun.Term}
     {gty : Option Fun.Ty} {env : Fun.Env} {k : Fun.Stack} {c : Core.Term} {s : Core.Stmt}
-    {ρ0 ρ : CEnv} {out : Out} {n : Nat} (hg : good (.goto a u gty) = true)
+    {ρ0 ρ : CEnv} {out : Out} {n : Nat} (hg : good p (.goto a u gty) = true)
     (hc : Compiled q n (.goto a u gty) c s)
-    (he : EnvRel GP q n (fv (.goto a u gty)) env ρ0)
+    (he : EnvRel (GP p) q n (fv (.goto a u gty)) env ρ0)
     (hbd : BoundOn (tfvStmt s []) ρ0) (hag : AgreeOn (tfvStmt s []) ρ0 ρ) :
-    Chunk p q (R q) true (.eval (.goto a u gty) env k) ⟨s, ρ, out, n⟩ := by
-  simp only [good] at hg
+    Chunk p q (R p q) true (.eval (.goto a u gty) env k) ⟨s, ρ, out, n⟩ := by
+  simp only [good, Bool.and_eq_true] at hg
+  obtain ⟨⟨hg, hncd⟩, _⟩ := hg
   obtain ⟨st, st', hcwc, hst, htn, hcn⟩ := hc
   rw [cwc_goto] at hcwc
-  cases hty : getType u with
-  | none => simp [hty] at hcwc
-  | some τ =>
+  obtain ⟨τ, hty', hnc⟩ := X.cod.ncd hncd
+  have hty : getType u = some τ := by rw [getType_eq]; exact hty'
+  have htriv : True := trivial
+  cases htriv with
+  | intro =>
     simp only [hty] at hcwc
     obtain ⟨v, V, h1, h2, h3⟩ := he.get (y := a) (by simp [fv])
     have hstep := step_goto p a u gty env k
@@ -171,6 +292,7 @@ theorem eval_goto (X : Ctx p q) {a : String} {u : Fun.Term}
     cases h3 with
     | int _ => exact .inl ⟨0, _, .stuck (.notCont a), .refl _, by rw [hstep]; rfl, fun h => h.elim⟩
     | con _ => exact .inl ⟨0, _, .stuck (.notCont a), .refl _, by rw [hstep]; rfl, fun h => h.elim⟩
+    | obj _ _ _ _ _ => exact .inl ⟨0, _, .stuck (.notCont a), .refl _, by rw [hstep]; rfl, fun h => h.elim⟩
     | @cont k' _ hk =>
       simp only at hstep
       refine .inr ⟨0, _, _, [], 0, _, .refl _, .inr ⟨none, hstep, rfl⟩,
@@ -184,15 +306,15 @@ theorem eval_goto (X : Ctx p q) {a : String} {u : Fun.Term}
         subst hb
         exact .inr ⟨ha_sig, ha_used⟩
       · exact .mk (by simpa [Core.cnsVal] using h2) hk trivial
-          (fun b hb => by rw [mem_tfv_var] at hb; subst hb; exact ⟨_, h2⟩)
+          (fun b hb => by rw [mem_tfv_var] at hb; subst hb; exact ⟨_, h2⟩) hnc
 
 /-- parentheses -/
 theorem eval_paren {t : Fun.Term} {env : Fun.Env} {k : Fun.Stack} {c : Core.Term} {s : Core.Stmt}
-    {ρ0 ρ : CEnv} {out : Out} {n : Nat} (hg : good (.paren t) = true)
+    {ρ0 ρ : CEnv} {out : Out} {n : Nat} (hg : good p (.paren t) = true)
     (hc : Compiled q n (.paren t) c s)
-    (he : EnvRel GP q n (fv (.paren t)) env ρ0) (hr : CRel GP q n k c ρ0)
+    (he : EnvRel (GP p) q n (fv (.paren t)) env ρ0) (hr : CRel (GP p) q n k c ρ0)
     (hbd : BoundOn (tfvStmt s []) ρ0) (hag : AgreeOn (tfvStmt s []) ρ0 ρ) :
-    Chunk p q (R q) true (.eval (.paren t) env k) ⟨s, ρ, out, n⟩ := by
+    Chunk p q (R p q) true (.eval (.paren t) env k) ⟨s, ρ, out, n⟩ := by
   obtain ⟨st, st', hcwc, hst, htn, hcn⟩ := hc
   have f1 : Fun.step p (.eval (.paren t) env k) = .next (.eval t env k) none := rfl
   refine .inr ⟨0, _, _, [], 0, _, .refl _, .inr ⟨none, f1, rfl⟩,
